@@ -59,7 +59,7 @@ var NestDepths = []int{20, 100, 400}
 var MutKinds = []string{
 	"ident-swap", "ident-undefined", "type-swap", "lit-swap", "drop-arg", "add-arg", "drop-line", "dup-line",
 	"drop-return", "define-assign", "lhs-count", "unused-var", "unused-import", "op-swap", "dup-decl", "dup-case",
-	"drop-token", "insert-token", "dup-span", "truncate", "swap-tokens", "nest", "splice",
+	"stray-stmt", "drop-token", "insert-token", "dup-span", "truncate", "swap-tokens", "nest", "splice",
 }
 
 // Mutate applies one mutation of the given kind; ok=false if it does not apply.
@@ -196,6 +196,30 @@ func Mutate(r *vh.Rand, src string, kind string, other string) (out string, ok b
 			b.WriteString(l)
 		}
 		return b.String(), true
+	case "stray-stmt":
+		// a control-flow or odd statement where it does not belong
+		stray := []string{"fallthrough", "break", "continue", "goto Lnone", "return 1, 2", "defer 1", "go f", "select {}", "Lx:", "break Lx", "continue Lx", "return", "var _ = fallthrough", "x.y.z++", "*p = 1", "panic()", "recover(1)", "import \"os\"", "type T = T", "const c", "func() {}", "<-ch", "ch <- 1, 2", "a, b := 1", "for range 1 {}", "if {}", "switch { default: fallthrough }"}
+		var idx []int
+		for i, l := range lines {
+			if strings.TrimSpace(l) != "" {
+				idx = append(idx, i)
+			}
+		}
+		if len(idx) == 0 {
+			return src, false
+		}
+		i := idx[r.Intn(len(idx))]
+		ind := lines[i][:len(lines[i])-len(strings.TrimLeft(lines[i], "\t "))]
+		st := stray[r.Intn(len(stray))] + "\n"
+		if r.Bool() {
+			lines[i] = ind + st + lines[i]
+		} else {
+			if !strings.HasSuffix(lines[i], "\n") {
+				lines[i] += "\n"
+			}
+			lines[i] = lines[i] + ind + st
+		}
+		return strings.Join(lines, ""), true
 	case "define-assign":
 		i, ok1 := pick(func(t Tok) bool { return t.Tok == token.DEFINE || t.Tok == token.ASSIGN })
 		if !ok1 {
